@@ -321,3 +321,17 @@ package workceptor
 //@     invariant POS2: [C05] filePos == startPos + ownsentbytes()
 //@   loop #3
 //@     invariant POS3: [C05] filePos == startPos + ownsentbytes()
+
+// the mirror of a remote unit's output: every (re)connection asks for the results from the current size of the
+// local copy, appends the reply verbatim to that same file, and stops only when the remote unit is complete and the
+// local copy is at least as long as the recorded remote size
+//@ func (*remoteUnit).monitorRemoteStdout
+//@   tags C05
+//@   requires rw != nil && mw != nil
+//@   site call stdoutSize LOCALSIZE: [C05] requires arg0 == lastcall("UnitDir", 0)
+//@   site mapupdate map[string]interface{}@3 WHICHUNIT: [C05] requires key == "unitid" && value == box(remoteUnitID)
+//@   site mapupdate map[string]interface{}@4 RESUME: [C05] requires key == "startpos" && value == box(diskStdoutSize) && diskStdoutSize == lastcall("stdoutSize", 0) && diskStdoutSize < remoteStdoutSize
+//@   site call OpenFile APPENDONLY: [C05] requires arg1 == 1089 && arg0 == lastcall("StdoutFileName", 0)
+//@   site call Copy VERBATIM: [C05] requires arg0 == box(stdout) && arg1 == box(reader) && stdout == lastcall("OpenFile", 0) && lastcall("OpenFile", 1) == nil
+//@   site continue #1 NOTDONE: [C05] requires !(lastcall("IsComplete", 0) && diskStdoutSize >= remoteStdoutSize)
+//@   site call IsComplete OFRECORD: [C05] requires arg0 == lastcall("Status", 0).State && remoteStdoutSize == lastcall("Status", 0).StdoutSize
